@@ -181,16 +181,24 @@ def select_grammars(tier, seed, wd, run):
     pool += [("classics", G) for G in gs]
     gs, r = pipeline.dump_universe("U2", wd)
     run.add_tlc(r)
-    n_u = 700 if tier == "quick" else 6000
+    n_u = 380 if tier == "quick" else 6000
     pool += [("U2", G) for G in rng.sample(gs, min(len(gs), n_u))]
-    if tier == "thorough":
-        for u in ("U3a", "U3b"):
-            gs, r = pipeline.dump_universe(u, wd)
-            run.add_tlc(r)
-            pool += [(u, G) for G in rng.sample(gs, min(len(gs), 3000))]
+    for u in ("U3a", "U3b"):
+        gs, r = pipeline.dump_universe(u, wd)
+        run.add_tlc(r)
+        pool += [(u, G) for G in rng.sample(gs, min(len(gs), 120 if tier == "quick" else 3000))]
+    # larger seeded random grammars (right-hand sides up to 5 symbols, so reduce functions with many fields and `_` masks in
+    # every position run) - few terminals keep "all strings up to n" small
+    for _ in range(80 if tier == "quick" else 1500):
+        pool.append(("random", pipeline.random_grammar(rng, max_nts=4, max_ts=2, max_rules=7, max_rhs=5)))
+    for _ in range(160 if tier == "quick" else 3000):
+        G = pipeline.bracket_grammar(rng)
+        if len(G["ts"]) <= 3:
+            pool.append(("bracket", G))
     cases = []
     for origin, G in pool:
         pres = grammar.present(G, rng, payload=None)
+        pres["ts"] = list(G["ts"]) if origin == "bracket" else pres["ts"]
         for t in pres["ts"]:
             pres["ttypes"][t] = rng.choice(PAYLOAD_TYPES)
         cases.append({"G": G, "pres": pres, "src": grammar.render(G, pres, attrs=False), "origin": origin})
@@ -204,10 +212,26 @@ def select_grammars(tier, seed, wd, run):
                 raise ToolError("rendering is not faithful (%s):\n%s" % (why, c["src"]))
             c["rust"] = res["rust"]
             ok.append(c)
-    cap = 450 if tier == "quick" else 6000
+    cap = 560 if tier == "quick" else 9000
+    # grammars on which the pipeline's end-state judgement (PipelineJudge: verdict, automaton, tables) already disagrees with
+    # the specification are the ones whose parsers most likely misbehave: run them for sure. On a correct tree there are none.
+    suspicious = []
+    try:
+        os.makedirs(os.path.join(wd, "pipeline"), exist_ok=True)
+        pcases = pipeline.execute("quick", seed, run, os.path.join(wd, "pipeline"))
+        for c in pcases:
+            j = c.get("judge")
+            if j is not None and not j["ok"] and c["resp"]["res"]["t"] == "ok" and len(suspicious) < 80:
+                pres = c["pres"]
+                if len(pres["ts"]) <= 3 and all(v in ("u32", "()") for v in pres["ttypes"].values()):
+                    suspicious.append({"G": c["G"], "pres": pres, "src": c["src"], "origin": "suspicious", "rust": c["resp"]["res"]["rust"]})
+    except ToolError as e:
+        log("  (pipeline pre-screen skipped: %s)" % str(e)[:200])
+    run.notes["suspicious_grammars_from_pipeline_judgement"] = len(suspicious)
     # keep all classics, then fill up
-    keep = [c for c in ok if c["origin"] == "classics"]
+    keep = suspicious + [c for c in ok if c["origin"] == "classics"]
     rest = [c for c in ok if c["origin"] != "classics"]
+    rng.shuffle(rest)
     return keep + rest[:max(0, cap - len(keep))]
 
 
@@ -305,6 +329,14 @@ def check(prop, tier, seed):
             if err.startswith("HANG"):
                 run.violation({"kind": "hang", "why": "C01: " + err, "batch": lo})
                 return run.finish()
+            if prop == "C02":
+                # the walker destructures every emitted type exactly as the declarations prescribe; if rustc rejects that, the
+                # value parse returns does not have the shape C02 describes
+                bad = sorted(set(int(x) for x in __import__("re").findall(r"\bg(\d+)(?:\.rs|::)", err)))
+                k = bad[0] if bad else 0
+                run.violation({"kind": "walker-does-not-compile", "why": "C02: the value returned by parse cannot be destructured in the shape the declarations prescribe (rustc): " + err[:900],
+                               "src": sub[k]["src"] if k < len(sub) else sub[0]["src"], "judged_by": "rustc on the generated exact-shape walker"})
+                return run.finish()
             raise ToolError("emitted parsers or glue did not compile / run (C05/C06 territory):\n" + err[:6000])
         outs += o
     shapes = set()
@@ -352,8 +384,8 @@ def check(prop, tier, seed):
     run.assumptions = ["TLC 1.8.0 / CommunityModules", "rustc compiles the emitted text faithfully",
                        "payload identity is observed through generated glue (Pay::show) that reads the payload value",
                        "grammars: classics + seeded sample of the universes; inputs: ALL strings up to n tokens (n reduced per grammar when it has many terminals), each with two payload assignments"]
+    longer_inputs(prop, tier, seed, run, wd)
     if not os.environ.get("VERIF_SKIP_MC"):
-        longer_inputs(prop, tier, seed, run, wd)
         liveness(tier, run, wd, cases)
     return run.finish()
 
@@ -434,6 +466,13 @@ def longer_inputs(prop, tier, seed, run, wd):
         cands.append(("classics", G))
     for _ in range(60 if tier == "quick" else 600):
         cands.append(("random", pipeline.random_grammar(rng, max_nts=5, max_ts=4, max_rules=10, max_rhs=3)))
+    # WIDE rules: 10-14 fields in one fieldset (two-digit field indices), nested once so that boxed subtrees occur too
+    for _ in range(12 if tier == "quick" else 120):
+        k = rng.randint(10, 14)
+        ts = ["$Ta", "$Tb"]
+        row = [rng.choice(ts + ts + ["Cell"]) for _ in range(k)]
+        cands.append(("wide", {"nts": ["Row", "Cell"], "ts": ts, "start": "Row",
+                               "rules": [{"lhs": "Row", "rhs": row}, {"lhs": "Cell", "rhs": ["$Tb", "$Ta"]}, {"lhs": "Cell", "rhs": ["$Ta"]}]}))
     cases = []
     for origin, G in cands:
         pres = grammar.present(G, rng, payload=None)
@@ -446,7 +485,7 @@ def longer_inputs(prop, tier, seed, run, wd):
         if c["resp"]["res"]["t"] == "ok":
             c["rust"] = c["resp"]["res"]["rust"]
             ok.append(c)
-    ok = ok[:120 if tier == "quick" else 800]
+    ok = [c for c in ok if c["origin"] == "wide"] + [c for c in ok if c["origin"] != "wide"][:120 if tier == "quick" else 800]
     inputs, meta = [], []
     per = 12 if tier == "quick" else 40
     for k, c in enumerate(ok):
@@ -460,6 +499,12 @@ def longer_inputs(prop, tier, seed, run, wd):
     if outs is None:
         if err.startswith("HANG"):
             run.violation({"kind": "hang", "why": "C01: " + err})
+            return
+        if prop == "C02":
+            bad = sorted(set(int(x) for x in __import__("re").findall(r"\bg(\d+)(?:\.rs|::)", err)))
+            k = bad[0] if bad and bad[0] < len(ok) else 0
+            run.violation({"kind": "does-not-compile", "why": "C02: no value of the declared shape can be obtained: rustc rejects the emitted parser or the exact-shape walker: " + err[:900],
+                           "src": ok[k]["src"], "judged_by": "rustc on the emitted module plus generated exact-shape walker"})
             return
         raise ToolError("emitted parsers or glue did not compile / run:\n" + err[:6000])
     # hand the observations to TLC
@@ -496,6 +541,13 @@ def longer_inputs(prop, tier, seed, run, wd):
             run.violation(vcase(ok[k], w, ids, "no next() after the iterator returned None", got, "C03: the parser called next() again after the end of input"))
         if not j["ok"] and j["why"].startswith(prop + ":"):
             run.violation(vcase(ok[k], w, ids, json.dumps(j["expect"]), got, j["why"]))
+        if j["ok"] and j["expect"]["t"] == "acc" and prop == "C02":
+            exp_tree = expected_tree(ok[k]["G"], ok[k]["pres"], j["tree"], ids)
+            got_tree = got.split(" pulled=")[0][3:]
+            if got_tree != exp_tree:
+                run.violation(vcase(ok[k], w, ids, "OK " + exp_tree, got, "C02: on a longer input the returned value is not the derivation tree of the input"))
+            else:
+                run.nontrivial.add(("long-tree", k, len(w)))
     run.notes["long_inputs_judged"] = len(recs)
     run.notes["long_inputs_len_ge_8"] = nlong
 
